@@ -17,6 +17,7 @@ func vpHexVal(c byte) rune {
 	}
 }
 
+// vp:check C01 both
 // vp_C01_hex: for all 4 hex-digit bytes readHexDigits returns their value.
 func vp_C01_hex() {
 	b := vpNondetBytes("b", 4)
